@@ -1,4 +1,5 @@
 import RedisEmu.Conc
+import RedisEmu.LockFacts
 import RedisEmu.Props.C16
 import Mathlib.Tactic.SplitIfs
 /-
@@ -107,5 +108,15 @@ theorem interleaving_is_sequential (s : σ) (tr : List (MEv σ)) (h : Discipline
     execTrace s tr = execCommands s (commandsOf none tr) := by
   have := atomic_aux tr s none none h rfl
   simpa using this
+
+/-! ### the premise of `interleaving_is_sequential` on the code: the regenerated locking facts
+
+See `data_layer_lock_discipline` in C16: every function that touches a database takes its lock before
+the first touch and holds it until it returns (or is only called with the lock held). The facts are
+re-extracted from /repo on every run. -/
+
+theorem commands_hold_the_lock_throughout :
+    lockFacts.all (fun f => f.2 != LockKind.unprotected && f.2 != LockKind.locksExplicit) = true := by
+  decide
 
 end RedisEmu
